@@ -109,6 +109,9 @@ def race(V, tier, seed):
 
 
 ENGINES = [{"name": "c14", "gen": gen, "corpus": corpus, "nontrivial": nontrivial, "classify": classify, "shards": 4}]
+from props.e2e_common import e2e_engine, E2E_TRUSTED
+ENGINES.append(e2e_engine("C14"))   # a real bmp-tcp-in unit: returning routers keep their ingress id, also across a listener re-bind
+TRUSTED_BASE.append(E2E_TRUSTED)
 EXTRAS = [race]
 
 LEVEL_TEXT = ("Theorems over all call histories of the Register model (freshness below the u32 bound, wrap-around shown sharp, "
